@@ -182,6 +182,13 @@ def run_case(route, shape, bpv, bs, d, idx):
                 if not bits_equal(got, sl):
                     R.violation('oracle', inp, f'{name}({k}) differs from the ZFP image of the edge-extended source although read_volume() agrees')
                     break
+            else:
+                # the cube read back slab by slab (4 inlines at a time, all slabs held until the end, as a caller assembling a
+                # volume does): the assembled cube is the same image
+                if n0 >= 8:
+                    parts = [r.read_subvolume(i_, min(i_ + 4, n0), 0, n1, 0, n2) for i_ in range(0, n0, 4)]
+                    if not bits_equal(np.concatenate(parts, axis=0), want):
+                        R.violation('oracle', inp, 'the cube assembled from read_subvolume slabs of 4 inlines (all held until the end) differs from the ZFP image of the edge-extended source although read_volume() agrees')
     # O1b: the re-layout route (2-bit default-layout files can be re-blocked to 64x64x4): read-back is the same image
     if rate == 2 and tuple(sp.bs) == (4, 4, 1024):
         q = p + '.adv.sgz'
